@@ -56,6 +56,10 @@ CLAIMED = {
             "Sibling agreement between the three places that compare an extension's kind with a definition's kind (18 sites: all must report on the non-matching branch), first-wins shape of the sticky insert helpers, order discipline of the orphan queue, and one FileId per source text.",
             "Decides necessary structural conditions of order-independence; does not compare diagnostics of sequential and concatenated builds.",
             "sibling (SIB) must-pass-through rule per match edge over rustc MIR; who-calls on the orphan queue", False),
+    "C21": ("other",
+            "Every recursive cycle of the compiler's call graph (28 SCCs) is classified: cut by a counting depth guard on every cycle, confined to one definition's syntax tree (bounded by the parser limit), or run only on validated input; cycles that follow names across definitions without a counting guard are reported (two genuine stack overflows found this way, listed as known findings). Diagnostic lists leave the crate only through sorting exits. Thorough tier adds the reviewed panic-site inventory.",
+            "Decides the stack clause relative to guard limits and the sortedness exits; ariadne rendering and drop glue are outside; the allow-list of single-definition cycles carries one reason each.",
+            "call-graph SCC classification with guard cut-sets (dominating success edges) + must-pass-through for sort exits over rustc MIR", True),
 }
 
 NOT_APPLICABLE = {
